@@ -14,6 +14,9 @@
         (proposed_fixes/C08-merge-checks-join-dimensions.diff),
       - rename_tensor: the public method refuses the virtual tensor -1; merge relabels its
         private copy through _rename_tensor  (proposed_fixes/C08-rename-tensor-refuses-virtual.diff).
+      - merge: refused (before anything is changed) when the joins would leave a (fused) bond with
+        fewer than two legs  (proposed_fixes/C08-merge-refuses-joins-that-starve-a-bond.diff);
+        the `assert len(bond.tids) >= 2` of the deletion loop stays in the model as it stays in the code.
     No proofs in this file. *)
 From Qib Require Export Base.Scalar.
 Local Open Scope Z_scope.
@@ -330,6 +333,103 @@ Definition del_step (n : net) (delax : nat) : option net :=
       end
   end.
 
+(** the last refusal of merge's validation part: every (fused) bond must retain at least two legs
+    after the joined open axes are removed
+        nets = (self, other)
+        open_bids = {(i, joinax[i]): (i, nets[i].tensors[-1].bids[joinax[i]]) for joinax in join_axes for i in (0, 1)}
+        fused_bids = dict(open_bids)
+        for joinax in join_axes:
+            bid0, bid1 = fused_bids[0, joinax[0]], fused_bids[1, joinax[1]]
+            fused_bids = {ax: (bid0 if bid == bid1 else bid) for ax, bid in fused_bids.items()}
+        for fbid in set(fused_bids.values()):
+            axes = [ax for ax in fused_bids if fused_bids[ax] == fbid]
+            num_legs = sum(len(nets[i].bonds[bid].tids) for i, bid in set(open_bids[ax] for ax in axes))
+            if num_legs - len(axes) < 2: raise ValueError
+    The two dictionaries are association lists over the same keys (network, open axis) in the same
+    (insertion) order; their values are bonds labelled by their network (network, bond id). *)
+Definition akey := (nat * nat)%type.
+Definition bkey := (nat * Z)%type.
+Definition akey_eqb (a b : akey) : bool := Nat.eqb (fst a) (fst b) && Nat.eqb (snd a) (snd b).
+Definition bkey_eqb (a b : bkey) : bool := Nat.eqb (fst a) (fst b) && Z.eqb (snd a) (snd b).
+Fixpoint aget (k : akey) (d : list (akey * bkey)) : option bkey :=
+  match d with
+  | [] => None
+  | (k', v) :: r => if akey_eqb k k' then Some v else aget k r
+  end.
+Fixpoint aset (k : akey) (v : bkey) (d : list (akey * bkey)) : list (akey * bkey) :=
+  match d with
+  | [] => [(k, v)]
+  | (k', v') :: r => if akey_eqb k k' then (k, v) :: r else (k', v') :: aset k v r
+  end.
+Definition open_bids (n o : net) (joins : list (nat * nat)) : list (akey * bkey) :=
+  fold_left (fun d j => aset (1%nat, snd j) (1%nat, nth (snd j) (vbids o) 0)
+                             (aset (0%nat, fst j) (0%nat, nth (fst j) (vbids n) 0) d)) joins [].
+Definition fuse_step (fb : list (akey * bkey)) (j : nat * nat) : list (akey * bkey) :=
+  match aget (0%nat, fst j) fb, aget (1%nat, snd j) fb with
+  | Some b0, Some b1 => map (fun p => (fst p, if bkey_eqb (snd p) b1 then b0 else snd p)) fb
+  | _, _ => fb      (* KeyError: not reachable, open_bids has put both keys in *)
+  end.
+(** set(...) of labelled bonds (the order does not matter below) *)
+Fixpoint bdedup (l : list bkey) : list bkey :=
+  match l with
+  | [] => []
+  | x :: r => if existsb (bkey_eqb x) r then bdedup r else x :: bdedup r
+  end.
+(** len(nets[i].bonds[bid].tids)   ([None] = KeyError) *)
+Definition bond_legs (n o : net) (k : bkey) : option nat :=
+  option_map (fun b => length (b_tids b)) (dget (snd k) (bonds (match fst k with O => n | _ => o end))).
+Definition class_starves (n o : net) (ob fb : list (akey * bkey)) (r : bkey) : bool :=
+  let members := bdedup (map (fun pq => snd (fst pq)) (filter (fun pq => bkey_eqb (snd (snd pq)) r) (combine ob fb))) in
+  let naxes := length (filter (fun p => bkey_eqb (snd p) r) fb) in
+  match omap (bond_legs n o) members with
+  | None => true      (* KeyError in front of any change: refused as well *)
+  | Some ls => Nat.ltb (fold_right Nat.add O ls - naxes) 2
+  end.
+Definition joins_starve (n o : net) (joins : list (nat * nat)) : bool :=
+  let ob := open_bids n o joins in
+  let fb := fold_left fuse_step joins ob in
+  existsb (class_starves n o ob fb) (bdedup (map snd fb)).
+
+(** the part of merge behind the validation (everything that changes state): relabelling of the
+    private copy, union, fusing of the virtual tensors, joining, the deletion loop with its
+    `assert len(bond.tids) >= 2`, selection of the kept open axes *)
+Definition merge_changes (norig : nat) (n o : net) (joins : list (nat * nat)) (ordT ordB : list Z) : option net :=
+  if negb (is_shared_order ordT (dkeys (tensors n)) (dkeys (tensors o))) then None
+  else if negb (is_shared_order ordB (dkeys (bonds n)) (dkeys (bonds o))) then None
+  else
+    let next_tid := zmax0 (dkeys (tensors n) ++ dkeys (tensors o)) + 1 in
+    match relabel_tensors o ordT next_tid VT with
+    | None => None
+    | Some (o1, tmp) =>
+        let next_bid := zmax0 (dkeys (bonds n) ++ dkeys (bonds o1)) + 1 in
+        match relabel_bonds o1 ordB next_bid with
+        | None => None
+        | Some o2 =>
+            let n1 := mkN (dupdate (tensors n) (tensors o2)) (dupdate (bonds n) (bonds o2)) in
+            match merge_tensors n1 VT tmp with
+            | None => None
+            | Some n2 =>
+                let ndim := match num_open_axes n2 with Some k => k | None => O end in
+                match ofold (join_step norig) joins (n2, seq 0 ndim) with
+                | None => None
+                | Some (n3, amap) =>
+                    let del_axes := filter (fun i => negb (nmem i amap)) (seq 0 ndim) in
+                    match ofold del_step del_axes n3 with
+                    | None => None
+                    | Some n4 =>
+                        match dget VT (tensors n4) with
+                        | None => None
+                        | Some t =>
+                            Some (mkN (dset VT (mkT (t_id t) (map (fun i => nth i (t_shape t) O) amap)
+                                                          (map (fun i => nth i (t_bids t) 0) amap) (t_ref t))
+                                            (tensors n4)) (bonds n4))
+                        end
+                    end
+                end
+            end
+        end
+    end.
+
 Definition merge (n o : net) (joins : list (nat * nat)) (ordT ordB : list Z) : option net :=
   match num_open_axes n with
   | None => None      (* RuntimeError: no virtual tensor *)
@@ -339,41 +439,8 @@ Definition merge (n o : net) (joins : list (nat * nat)) (ordT ordB : list Z) : o
       | Some nother =>
           if negb (forallb (fun j => Nat.ltb (fst j) norig && Nat.ltb (snd j) nother
                                      && Nat.eqb (nth (fst j) (vshape n) O) (nth (snd j) (vshape o) O)) joins) then None
-          else if negb (is_shared_order ordT (dkeys (tensors n)) (dkeys (tensors o))) then None
-          else if negb (is_shared_order ordB (dkeys (bonds n)) (dkeys (bonds o))) then None
-          else
-            let next_tid := zmax0 (dkeys (tensors n) ++ dkeys (tensors o)) + 1 in
-            match relabel_tensors o ordT next_tid VT with
-            | None => None
-            | Some (o1, tmp) =>
-                let next_bid := zmax0 (dkeys (bonds n) ++ dkeys (bonds o1)) + 1 in
-                match relabel_bonds o1 ordB next_bid with
-                | None => None
-                | Some o2 =>
-                    let n1 := mkN (dupdate (tensors n) (tensors o2)) (dupdate (bonds n) (bonds o2)) in
-                    match merge_tensors n1 VT tmp with
-                    | None => None
-                    | Some n2 =>
-                        let ndim := match num_open_axes n2 with Some k => k | None => O end in
-                        match ofold (join_step norig) joins (n2, seq 0 ndim) with
-                        | None => None
-                        | Some (n3, amap) =>
-                            let del_axes := filter (fun i => negb (nmem i amap)) (seq 0 ndim) in
-                            match ofold del_step del_axes n3 with
-                            | None => None
-                            | Some n4 =>
-                                match dget VT (tensors n4) with
-                                | None => None
-                                | Some t =>
-                                    Some (mkN (dset VT (mkT (t_id t) (map (fun i => nth i (t_shape t) O) amap)
-                                                                  (map (fun i => nth i (t_bids t) 0) amap) (t_ref t))
-                                                    (tensors n4)) (bonds n4))
-                                end
-                            end
-                        end
-                    end
-                end
-            end
+          else if joins_starve n o joins then None
+          else merge_changes norig n o joins ordT ordB
       end
   end.
 
